@@ -137,7 +137,7 @@ def threaded_same_alias(tape, clock):
     o.handler = bool(tape.draw(2))
     spec.outputs = [o]
     n1, n2 = 1 + tape.draw(3), 1 + tape.draw(3)
-    bodies = [[['out', 0, (('t%d-%d' % (t, k),), {}), ('value', 'r'), None] for k in range(n)] for t, n in ((0, n1), (1, n2))]
+    bodies = [[['out', 0, (('t%d-%d' % (t, k),), {}), ('value', 'result-t%d-%d' % (t, k)), None] for k in range(n)] for t, n in ((0, n1), (1, n2))]
     spec.body = [['spawn', bodies, False]]
     sim = Sim(tape, run, preempt_p=tape.choice([0.1, 0.3, 0.6]), target_files=[os.path.join(REPO, 'playback', 'tape_recorder.py')], max_steps=60000)
     store = C.gen_store(tape, clock, kinds=['memory', 'file'])
@@ -167,6 +167,29 @@ def threaded_same_alias(tape, clock):
             return run
         got = sorted(V.canon(tuple((r.get_data(k)['hargs'] if o.handler else r.get_data(k)['args']))) for k in outs)
         run.check(got == sent, 'recorded_outputs_equal_sent', 'concurrent-values-differ', lambda: 'recorded values %s, sent %s' % (got[:4], sent[:4]))
+        # the same program replayed, again with both threads sending at the same time
+        sim2 = Sim(tape, run, preempt_p=tape.choice([0.1, 0.3, 0.6]), target_files=[os.path.join(REPO, 'playback', 'tape_recorder.py')], max_steps=60000)
+        res2 = {}
+
+        def main2():
+            res2['rep'] = R.replay_once(spec, run, store.open(read_only=True), rec.rec_id, thread_factory=R.sim_thread_factory(sim2), sent=True)
+        try:
+            sim2.run_main(main2)
+        except SimDeadlock as ex:
+            run.violate('one_entry_per_call', 'deadlock', str(ex))
+            return run
+        rep = res2['rep']
+        if rep.outcome.kind != 'return':
+            run.violate('replay_completes', 'play-raised:%s' % type(rep.outcome.exc).__name__, 'concurrent replay raised %r' % (rep.outcome.exc,))
+            return run
+        pkeys = sorted(x.key for x in rep.playback.playback_outputs if x.key.startswith('output: %s #' % o.alias))
+        if pkeys != exp_keys:
+            run.violate('one_entry_per_call', 'concurrent-replayed-calls-share-an-ordinal', 'replay: %d calls of one alias from two threads were captured under keys %s' % (n1 + n2, [k.split('#')[1] for k in pkeys]))
+            return run
+        handed = sorted(x[3] for name, th, tobs, strag in rep.svc.threads for x in tobs if x[0] == 'out' and x[2] == 'value')
+        recorded_results = sorted('result-t%d-%d' % (t, k) for t, n in ((0, n1), (1, n2)) for k in range(n))
+        run.check(handed == recorded_results, 'one_entry_per_call', 'concurrent-replayed-results-differ',
+                  lambda: 'replay handed out results %s, recorded were %s' % (handed, recorded_results))
     finally:
         store.close()
     return run
